@@ -132,6 +132,21 @@ def keyword_programs(rng, n):
         ]))
     return out
 
+# programs that make the back end generate names (table_N for split pipelines, _expr_N for unnamed columns, clashes with
+# user names spelled like generated ones)
+NAMEGEN_PROGRAMS = [
+    "from t | select {a, b + 1} | take 3 | filter a > 1",
+    "from t | take 3 | filter a > 1 | take 5 | filter b > 2 | take 7",
+    "from t | select {a + 1, b + 2, c + 3} | take 2 | select {this.*}",
+    "from table_0 | take 3 | filter a > 1",
+    "from t | select {_expr_0 = a, b + 1} | take 3 | filter b > 1",
+    "from t | join u (==id) | take 3 | join v (==id) | take 4 | filter t.a > 1",
+    "let table_1 = (from t | take 2)\nfrom table_1 | take 3 | filter a > 1 | take 4",
+    "from t | group a (take 2) | take 3 | filter a > 1",
+    "from t | append u | take 3 | filter a > 1",
+    "from t | loop (filter a < 5 | select {a = a + 1}) | take 3",
+]
+
 # multi-file projects: [path, content]
 PROJECTS = {
     "mods-ok": [["Project.prql", "from a.x | join b.y (==id) | select {x.id, y.v}"], ["a.prql", "let x = (from ta | filter id > 2)\nlet z = 1"], ["b.prql", "let y = (from tb | select {id, v})\nlet k = 5"]],
@@ -582,6 +597,85 @@ def run():
         if a["after"] != a["before"] or a.get("panics_during"):
             ck.violation("restarting the debug log while another thread compiles breaks compile() for the rest of the process",
                          {"req": race, "got": a, "kind": "log-race"})
+
+    # ------------------------------------------------------------------ 7. generated-name state per call (hooks namegen-sites 44c332e, pq-names d5c1b7e)
+    # Every call of the name generators (`table_N`, `_expr_N`: sites anchor_split / assign_names / relvar, with what was already
+    # used) and the final name tables of the PQ context (verif:pq-names) must be a function of the call's input alone: the same
+    # lines, in the same order, whatever was compiled before in the process, and -- under one process-global log -- the lines of
+    # 16 concurrent calls must be exactly the multiset sum of the lines each call produces alone.
+    nreq = [r for r in reqs if not r.get("format")]
+    nsel = [dict(r) for r in ck.rng.sample(nreq, min(len(nreq), ck.n(48, 300)))]
+    nsel += [{"src": p, "format": False, "sig": False} for p in NAMEGEN_PROGRAMS]
+    ref = {}
+    alone = run_procs("c11_names", [[{"steps": [r]}] for r in nsel], timeout=300)
+    for r, ans in zip(nsel, alone):
+        a = ans[0]
+        st_ = (a.get("steps") or [None])[0] if isinstance(a, dict) else None
+        if st_ is None:
+            ck.violation("c11_names: a compilation under the debug log hangs or aborts", {"req": r, "got": a}); continue
+        ref[json.dumps(r, sort_keys=True)] = st_
+        ck.count("generated-names", json.dumps(["alone", r], sort_keys=True))
+    total_lines = sum(len(v["names"]) for v in ref.values())
+    ck.coverage["generated_names"] = {"requests": len(ref), "hook_lines_alone": total_lines,
+                                      "requests_that_generate_a_name": sum(1 for v in ref.values() if any('"old":null' in l or "_expr_" in l or "table_" in l for l in v["names"]))}
+    if ref and total_lines == 0:
+        ck.violation("the tree under test emits no `verif:namegen` / `verif:pq-names` lines (hooks 44c332e / d5c1b7e missing, or harness built without cfg(prqlc_verif)): generated-name state cannot be observed",
+                     {"kind": "hook-missing"}, no_input=True)
+    keys = list(ref)
+    # histories
+    hb = []
+    for h in range(ck.n(24, 120)):
+        steps = []
+        for _ in range(ck.rng.choice([4, 7, 10])):
+            steps.append({"src": ck.rng.choice(PANICKERS), "format": False, "sig": False} if ck.rng.random() < 0.15 else json.loads(ck.rng.choice(keys)))
+        hb.append([{"steps": steps}])
+    for b, ans in zip(hb, run_procs("c11_names", hb, timeout=300)):
+        a = ans[0]
+        got = a.get("steps") if isinstance(a, dict) else None
+        if got is None:
+            ck.violation("c11_names: a history under the debug log hangs or aborts", {"steps": b[0]["steps"], "got": a}); continue
+        prev = "start"
+        for st_, g_ in zip(b[0]["steps"], got):
+            k = json.dumps(st_, sort_keys=True)
+            ck.count("generated-names", json.dumps(["history", prev, st_], sort_keys=True))
+            if k in ref:
+                ck.stat("generated-names", "history-step:" + ("same" if g_ == ref[k] else "DIFFERENT"))
+                if g_ != ref[k]:
+                    diff = [(x, y) for x, y in zip(g_["names"], ref[k]["names"]) if x != y][:3]
+                    ck.violation("the names generated for a compilation depend on what was compiled before in the process",
+                                 {"src": st_.get("src"), "history": b[0]["steps"], "after": prev, "first_differences": diff,
+                                  "lines_here": len(g_["names"]), "lines_alone": len(ref[k]["names"]), "result_here": g_["r"], "result_alone": ref[k]["r"]})
+            prev = "panic" if "panic" in g_.get("r", {}) else "err" if "err" in g_.get("r", {}) else "ok"
+    # threads
+    pb = []
+    for k_ in range(ck.n(10, 40)):
+        sel = [json.loads(ck.rng.choice(keys)) for _ in range(16)]
+        if k_ % 2 == 0:
+            sel = [sel[0]] * 16
+        pb.append([{"par": {"n": 16, "m": 2, "reqs": sel}}])
+    for b, ans in zip(pb, run_procs("c11_names", pb, timeout=300)):
+        a = ans[0]
+        par = b[0]["par"]
+        ck.count("generated-names", json.dumps(["threads", par["reqs"]], sort_keys=True))
+        if not isinstance(a, dict) or "names" not in a:
+            ck.violation("c11_names: 16 concurrent compilations under one debug log hang or abort", {"req": par, "got": a}); continue
+        want = {}
+        for r in par["reqs"]:
+            for l in ref[json.dumps(r, sort_keys=True)]["names"]:
+                want[l] = want.get(l, 0) + par["m"]
+        have = {}
+        for l in a["names"]:
+            have[l] = have.get(l, 0) + 1
+        # the debug log's suppression counter is process-global (LogSuppressLock while a call loads std): entries of OTHER
+        # threads are discarded meanwhile, so lines may be missing from the shared log -- but no line may appear that the
+        # calls do not produce alone, nor more often than they produce it
+        extra = [l for l in have if have[l] > want.get(l, 0)][:3]
+        missing = [l for l in want if want[l] > have.get(l, 0)][:3]
+        ck.stat("generated-names", "threads:" + ("same-multiset" if have == want else "sub-multiset(lines suppressed)" if not extra else "DIFFERENT"))
+        ck.stat("generated-names", "threads:lines-seen-of-expected:%d%%" % (10 * int(10 * sum(have.values()) / max(1, sum(want.values())))))
+        if extra:
+            ck.violation("the name-generator lines of 16 concurrent compilations are not the sum of the lines of each compilation alone (generated-name state is shared between calls)",
+                         {"reqs": par["reqs"], "unexpected_lines": extra, "missing_lines": missing})
 
     ck.proof_broken_violation(found_input=any(not ni for _, _, ni in ck.violations))
     ck.assumptions += [
